@@ -249,6 +249,20 @@ func (c *ctx) timerFacts() []fact {
 	fs = append(fs, fact{"rtxTimerStartSites", "List (String × String × String)",
 		"every `(*rtxTimer).start(rto)` call in non-test code: (enclosing function, receiver, rto argument)", llist(st, true)})
 
+	// the configured maximum handed to the manager and to every timer
+	var mx [][2]string
+	for _, s := range c.callSites(func(call *ast.CallExpr) bool {
+		return c.isFuncCall(call, "newRTOManager") || c.isFuncCall(call, "newRTXTimer")
+	}) {
+		callee := "newRTXTimer"
+		if len(s.args) == 1 {
+			callee = "newRTOManager"
+		}
+		mx = append(mx, [2]string{callee, s.args[len(s.args)-1]})
+	}
+	fs = append(fs, pairsFact("rtoMaxArgSites",
+		"every `newRTOManager(rtoMax)` / `newRTXTimer(…, rtoMax)` call in non-test code: (callee, rtoMax argument)", mx))
+
 	// ack timer start / stop sites with their guards
 	fs = append(fs, guardedSitesFact("ackTimerStartSites",
 		"every `(*ackTimer).start()` call in non-test code: (enclosing function, guards)",
